@@ -63,6 +63,12 @@ Theorem C15b_tls_record_iff : forall e version content v c parts rest h out,
   (parse_tls_record (out ++ rest) = Some ((c, v, concat parts), rest) <-> len (concat parts) < 65536).
 Proof. exact tls_record_iff. Qed.
 
+Theorem C15b_tls_extension_iff : forall e ext t parts rest h out,
+  conv_u16 ext = Ok t ->
+  call e "tls::extension" [ext] (map VStr parts) h = Some (Ok (VStr out, h)) ->
+  (parse_extension (out ++ rest) = Some ((t, concat parts), rest) <-> len (concat parts) < 65536).
+Proof. exact tls_extension_iff. Qed.
+
 (** the hypotheses are met, on both sides of the boundary: 255 bytes parse back, 256 bytes declare 0 *)
 Example C15b_nonvacuous :
   let e := {| env_files := [] |} in
